@@ -12,7 +12,40 @@ spec.loader.exec_module(check)
 
 ALL = ["C%02d" % i for i in range(1, 21)]
 
+PBT = "property-based testing over constructed circuits (rapidcheck choice tapes, shrinking; libFuzzer in the thorough tier where configured)"
 META = {
+    "C01": dict(
+        technique=PBT + "; oracle: independent geometric legality predicate + unchanged-on-throw + must-return on the trivially feasible class",
+        text="Generated circuits over the whole C01 domain (split rows, gaps, obstructions of every kind, multi-row cells and macros, all eight orientations, polarities, sparse to over-full, three coordinate scales) are legalized with generated ordering parameters; a returned placement must satisfy a legality predicate built on an independent free-space sweep, a throw must leave x/y/orientation bit-identical, and the trivially feasible class must return. A sample of the domain, with the class histogram in the evidence.",
+        note="Trusted: the legality predicate of the harness (oracles.hpp), sanitizer runtimes and the library's own assertions (enabled)."),
+    "C02": dict(
+        technique=PBT + " + exhaustive enumeration of swap/insert histories on the row data structure; oracle: legality predicate at every callback, frozen multi-row cells, canX/throws contract, independent structural predicate",
+        text="Three layers: placeDetailed with an observing callback on circuits legalization accepts (must return; every exposed state legal; multi-row cells frozen); the optimiser driven directly by generated pass histories with arbitrary windows; and a complete enumeration of all feasible swap/insert sequences up to depth 3 (4) from all small initial placements, where canSwap/canInsert must predict exactly whether the operation succeeds. Complete for layer (c), a sample for (a) and (b).",
+        note="Trusted: harness predicates, sanitizer runtimes. Pass arguments respect the guards of their only caller (shift window >= 2, reordering rows >= 1)."),
+    "C03": dict(
+        technique=PBT + " with fault injection through throwing callbacks; oracle: equality of a snapshot of every public getter",
+        text="Five flows (each stage, the full flow, legalize twice) with no / observing / throwing callbacks and occasionally rejected parameters; before/after and inside every callback everything except x/y/orientation of movable cells must be bit-identical, also when the call ends in an exception; global placement must leave all orientations alone.",
+        note="Trusted: the frame snapshot covers every public getter and the public data members. The class of known finding c06-unanchored-far-from-origin is excluded from flows that run global placement."),
+    "C04": dict(
+        technique=PBT + " + exhaustive table check; oracle: the harness's own polarity table applied to the row under each cell",
+        text="Circuits with 60% polarised cells (every polarity on odd and even row counts, three row-orientation patterns); after legalize, inside every Detailed callback and after placeDetailed every polarised cell must have exactly the prescribed orientation on a row its polarity allows, and cells without polarity keep their orientation. The two orientation tables are enumerated completely.",
+        note="Trusted: the harness table transcribed from the documentation in coloquinte.hpp."),
+    "C05": dict(
+        technique=PBT + "; oracle: monotonicity of Circuit::hpwl() over exposed states, value()==hpwl() differential",
+        text="placeDetailed with an observing callback: hpwl() at successive Detailed callbacks and at return never increases and ends at or below the legalized value; direct drive of 1..12 optimiser passes: value() never increases and equals hpwl() of the exported placement. Runs in which a polarised cell changes orientation are a recorded known finding and are excluded by construction (counted).",
+        note="Trusted: Circuit::hpwl() as the measure (C09 pins it to geometry). Known finding c05-orientation-flip excluded and counted."),
+    "C06": dict(
+        technique=PBT + "; oracle: centre-in-bounding-box at every UpperBound callback, range check of every exposed coordinate (+ float-cast-overflow sanitizer), LB/UB blend relation with a derived rounding tolerance",
+        text="Global placement on generated circuits of the C06 domain with generated global parameters (all net models, cost models, reopt windows, blendings, seeds, noise); an observing callback checks every upper-bound placement, every exposed coordinate, and the final blend of the last lower and upper bound. The class 'unanchored net component and area far from the origin' is a recorded known finding, excluded by construction and counted.",
+        note="Trusted: tolerance derivation in DESIGN.md (integer rounding of float blends). Known finding c06-unanchored-far-from-origin excluded and counted."),
+    "C10": dict(
+        technique="fault enumeration: property-based generation of instances (rapidcheck) x exhaustive injection of a throwing callback at every callback index; oracle: refusal + unchanged frame inside callbacks, setters accepted and differential re-legalization afterwards",
+        text="For each generated instance the reference run counts the K callback invocations and checks that every structural setter is refused without effect at each of them; then every one of the K fault points is exercised on a fresh copy (throwing callback), and the circuit must be usable and consistent afterwards; failed legalizations and rejected parameters must leave the placement bit-identical. Exhaustive over fault points per instance, a sample over instances.",
+        note="Trusted: the harness-private exception type cannot be caught by the library's std::exception handlers. Instances are small (<= 12 cells, <= 12 global steps) so that K stays enumerable."),
+    "C11": dict(
+        technique=PBT + "; oracle: idempotence (legalize . legalize == legalize) and stability of constructed legal placements",
+        text="Row-high designs: a legal placement obtained from legalize or constructed by packing (touching cells likely) is legalized again, possibly with other accepted ordering parameters, and must not move. orderingWidth outside [0,1] is a recorded known finding, excluded by construction and counted.",
+        note="Trusted: harness legality predicate for the constructed starts. Known finding c11-ordering-width-outside-0-1 excluded and counted."),
     "C09": dict(
         technique="property-based testing (rapidcheck tapes, libFuzzer in the thorough tier) + exhaustive orientation x offset table; oracle: 2x2-matrix reference geometry and from-scratch one-axis HPWL",
         text="Generated circuits with all eight orientations, pins inside/on/outside the outline, repeated cells, empty and single-pin nets; hpwl(), the placed-size and pin-offset getters and both incremental topologies (all cells / arbitrary ordered subsets, histories of up to 40 updates) are compared with an independent reference after every step. The single-cell orientation x offset table is enumerated completely. A sample outside that table.",
